@@ -38,6 +38,9 @@ STANDARD = ("plain", "gz", "json", "phylip")
 WRITERS_ALL = ["aln", "arrayaln", "seqcoll", "newcoll", "tree", "table", "dictarray", "treecoll", "atomic"]
 
 
+CALLER_FILES = ["mytmp", "mytmp/precious.txt"]  # see c19_child.CALLER_TMP
+
+
 def _tclass(target):
     return "standard" if target in STANDARD else ("zipmember" if target == "zipmember" else "zipsuffix")
 
@@ -46,7 +49,7 @@ def _configs(ctx):
     quick = [
         ("aln", "plain"), ("aln", "gz"), ("aln", "json"), ("seqcoll", "plain"), ("newcoll", "gz"), ("tree", "plain"),
         ("table", "plain"), ("table", "gz"), ("dictarray", "plain"), ("treecoll", "plain"), ("atomic", "plain"),
-        ("atomic", "zipmember"), ("aln", "zip"), ("tree", "zip"),
+        ("atomic", "zipmember"), ("aln", "zip"), ("tree", "zip"), ("atomic_tmpdir", "plain"),
     ]
     if not ctx.thorough:
         cfgs = quick
@@ -60,6 +63,7 @@ def _configs(ctx):
             if w not in ("table", "atomic"):
                 cfgs.append((w, "zip"))
         cfgs.append(("atomic", "zipmember"))
+        cfgs.append(("atomic_tmpdir", "plain"))
     return [(w, t, p) for (w, t) in cfgs for p in (True, False)]
 
 
@@ -138,7 +142,7 @@ def _collect(ctx, cfg):
     for k in range(n):
         if tr[k][0] == "write":
             data["fmtfails"][k] = srv.job(kind="write", writer=w, target=t, present=present, mode="fmtfail", k=k, workdir=wd)
-    if w != "atomic":
+    if w not in ("atomic", "atomic_tmpdir"):
         data["natural"] = srv.job(kind="write", writer=w, target=t, present=present, mode="natural", workdir=wd)
     cache[cfg] = data
     return data
@@ -178,7 +182,14 @@ def _model_state_canon(ms):
 
 def _trace_shape(tr):
     out = []
+    skip = False
     for c in tr:
+        if c[0] == "zip_trunc":
+            skip = True  # zipfile's own retry ('w+b') and the write that follows happen inside the call the hook already counted
+            continue
+        if skip and c[0] == "zip_data":
+            skip = False
+            continue
         if c[0] == "write":
             out.append(("write", c[1], c[2] if isinstance(c[2], int) else len(c[2])))
         elif c[0] == "zip_data":
@@ -201,6 +212,9 @@ def correspondence(ctx):
         tclass = _tclass(t)
         if tclass == "zipsuffix":
             continue  # nested atomic_write: exercised by spec_check only
+        if w == "atomic_tmpdir":
+            _corr_tmpdir(ctx, out, cfg)
+            continue
         data = _collect(ctx, cfg)
         base = data["base"]
         inp = dict(writer=w, target=t, present=present)
@@ -249,8 +263,6 @@ def correspondence(ctx):
                 bad = []
                 for k, mr in zip(sorted(data["faults"]), res):
                     real = data["faults"][k]
-                    if tclass == "zipmember" and tr[k][0] in ("zip_data", "zip_dir"):
-                        continue  # zipfile's own OSError fallback ('r+b' -> 'w+b') / __del__ re-close: stdlib, outside the model
                     mc, mtmp = _model_state_canon(mr["state"])
                     rc, rtmp = _canon_state(real["after"]), bool(real["after"]["leftover"])
                     if rc == ("corrupt",) and mc == ("archive", ()):
@@ -286,7 +298,40 @@ def correspondence(ctx):
         "with_block=True,body_unlink=False; any other variant is reported as a correspondence failure"
     )
     _resume_corr(ctx, out)
+    _fine_corr(ctx, out)
     return out
+
+
+def _corr_tmpdir(ctx, out, cfg):
+    """atomic_write(path, tmpdir=D): success trace and final state vs the model's programTmp (either cleanup variant)"""
+    w, t, present = cfg
+    data = _collect(ctx, cfg)
+    base = data["base"]
+    inp = dict(writer=w, target=t, present=present)
+    out["evaluations"] += 1
+    if base.get("exc"):
+        add_failure(out, "corr", "tmpdir= route failed on the no-fault path", inp, "success", base.get("exc"), confirmed=False)
+        return
+    chunks = [_enc(c) for c in base["chunks"]]
+    mcfg = dict(commit="replace", guarded=True, with_block=True, body_unlink=False, close_in_body=False, chunks=chunks, zip_member=None)
+    res = ctx.driver.batch([("prog_tmp", dict(cfg=mcfg, cleanup=cl, dest=_model_dest(base["before"], "standard"))) for cl in ("rmtree_dir", "unlink_file")])
+    hit = None
+    for cl, mr in zip(("rmtree_dir", "unlink_file"), res):
+        if _trace_shape(mr["prog"]) == _trace_shape(base["trace"]):
+            hit = (cl, mr)
+    if hit is None:
+        add_failure(out, "corr", "tmpdir= route: real trace matches neither cleanup variant of the model's programTmp", inp, [r["prog"] for r in res], base["trace"], confirmed=False)
+        return
+    cl, mr = hit
+    bump(out, "tmpdir_cleanup_variant", cl)
+    real_keeps = all(x in base["after"]["leftover"] for x in CALLER_FILES)
+    mdest = mr["dest"]
+    mtext = bytes(mdest["data"]).decode("latin-1") if mdest["kind"] == "file" else None
+    if mr["caller_file_kept"] != real_keeps or ("file", mtext) != _canon_state(base["after"]):
+        add_failure(out, "corr", "tmpdir= route: final state differs from the model", dict(inp, variant=cl), [mr["caller_file_kept"], mtext], [real_keeps, _canon_state(base["after"])], confirmed=False)
+    else:
+        out["nontrivial"].add((w, t, present, "tmpdir", cl))
+    ctx.notes.append(f"tmpdir= route follows the model variant cleanup={cl} (rmtree_dir = tmpdir_route_counter applies, unlink_file = tmpdir_route_repaired)") if present else None
 
 
 # --------------------------------------------------------------------------
@@ -304,6 +349,13 @@ def _judge(cfg, data, mode, k, real, out, collect=True):
     left = real["after"]["leftover"]
     call = tr[k][0] if (k is not None and k < len(tr)) else "end"
     res = []
+    if w == "atomic_tmpdir":
+        # the temp file lives in a directory supplied by the caller, which holds an unrelated file: both must survive everything
+        gone = [x for x in CALLER_FILES if x not in left]
+        left = [x for x in left if x not in CALLER_FILES]
+        if gone:
+            res.append((f"{mode}:tmpdir-arg:{call if mode != 'trace' else 'success'}:caller-files-removed",
+                        "atomic_write(path, tmpdir=D) removed the caller's directory D and the unrelated file in it", CALLER_FILES, real["after"]["leftover"]))
 
     def symptom():
         if after == old or (new is not None and after == new):
@@ -412,12 +464,17 @@ def _run_resume(ctx, tag, inputs, kills):
 
     shutil.rmtree(outdir, ignore_errors=True)
     res = None
+    first = None
     for i, kw in enumerate(list(kills) + [{}]):
         lg = str(ctx.scratch / f"resume_{tag}_{i}.log")
         if os.path.exists(lg):
             os.unlink(lg)
         res = srv.job(kind="resume", out=outdir, inputs=inputs, log=lg, **kw)
+        if first is None and kw:
+            first = res.get("store")  # the store as the killed run left it
         logs.append(res.get("log", []))
+    if res is not None:
+        res["after_kill"] = first
     return res, logs
 
 
@@ -546,6 +603,58 @@ def _resume_corr(ctx, out):
                     add_failure(out, "corr", "not-completed record differs from the model", dict(k=case["k"]), exp, real, confirmed=False)
 
 
+def _cells(store, ids):
+    """observed store -> [[m, record slot, not-completed slot, md5 slot]] with slots absent / empty / full"""
+    def slot(d, name):
+        if name not in d:
+            return "absent"
+        v = d[name]
+        if isinstance(v, list):
+            return "empty" if v and v[0] == "unparsable" else "full"
+        return "full" if v else "empty"
+
+    return [[m, slot(store["completed"], f"r{m:02d}.fasta"), slot(store["not_completed"], f"r{m:02d}.json"), slot(store["md5"], f"r{m:02d}.txt")] for m in ids]
+
+
+def _fine_corr(ctx, out):
+    """record-granular resume: Lean StoreWrite (crash point (j, p)) vs the real store after the kill and after the re-run;
+    the variant of the store's _write (in place / md5-then-record through atomic_write) is detected"""
+    cases = [c for c in _resume_cases(ctx, 1) if c["mode"] in ("file", "created") and c["res"].get("after_kill") is not None]
+    if not cases:
+        return
+    best = None
+    for variant in ("in_place", "atomic_md5_first"):
+        reqs, keep = [], []
+        for c in cases:
+            ids = [int(os.path.basename(p)[1:3]) for p in c["inputs"]]
+            k = c["k"]
+            if k >= 2 * len(ids):
+                continue  # the log file, not a record
+            j, odd = divmod(k, 2)
+            if variant == "in_place":
+                p = (2 if odd else 0) if c["mode"] == "file" else (3 if odd else 1)
+            else:
+                p = 1 if odd else 0
+            reqs.append(("fine", dict(variant=variant, inputs=[[m, m != c["short"]] for m in ids], j=j, p=p)))
+            keep.append((c, ids, j, p))
+        bad = []
+        for (c, ids, j, p), mr in zip(keep, ctx.driver.batch(reqs)):
+            real_crash, real_final = _cells(c["res"]["after_kill"], ids), _cells(c["res"]["store"], ids)
+            if mr["crash"] != real_crash or mr["resumed"] != real_final:
+                bad.append((dict(mode=c["mode"], k=c["k"], j=j, p=p, variant=variant, order=ids, short=c["short"]), [mr["crash"], mr["resumed"]], [real_crash, real_final]))
+        if best is None or len(bad) < len(best[1]):
+            best = (variant, bad, len(keep))
+    variant, bad, n = best
+    bump(out, "store_write_variant", variant)
+    out["evaluations"] += n
+    for inp, exp, got in bad[:3]:
+        add_failure(out, "corr", "store after a kill inside a record write / after the re-run differs from the StoreWrite model (closest variant shown)", inp, exp, got, confirmed=False)
+    if not bad:
+        out["nontrivial"].add(("fine-resume", variant, n))
+    ctx.notes.append(f"DataStoreDirectory._write follows the StoreWrite variant {variant} (in_place: resume_same_store_fine_partial + _counter apply; "
+                     "atomic_md5_first: resume_same_store_fine applies at every crash point)")
+
+
 def spec_check(ctx, budget):
     out = new_outcome(
         "real fault injection: every writer x target x {dest present, absent}: kill (os._exit in the audit hook) before every call, "
@@ -587,6 +696,8 @@ def _regression_witnesses(ctx, out):
 def match_finding(f, k):
     sig = f.get("sig") or ""
     if sig not in k.get("sigs", []) and not any(sig.startswith(p) for p in k.get("sig_prefixes", [])):
+        return False
+    if k.get("sig_suffix") and not sig.endswith(k["sig_suffix"]):
         return False
     r = k.get("restrict") or {}
     inp = f.get("input") or {}
